@@ -14,6 +14,15 @@ CLAIMS = {
  "C03": ("exploration", "8.C03", "seeded simulation: byte diff of simulated tag storage + write address log vs independent layout model",
          "Seeded exploration of octets assignment / format / format(wipe) on all four tag types: every changed byte and every write command must fall inside the NDEF area computed by the independent layout model; lock/OTP bytes are OR-only in the models so stray writes are visible.",
          "format() of classes documented to create management data is judged against their documentation (DESIGN 8.C03)"),
+ "C08": ("exploration", "8.C08", "seeded simulation with byzantine tag models (mutated images, response palettes, tag stops answering at command k)",
+         "Seeded exploration: the real activation and NDEF read paths run against simulated tags with random / mutated memory images, every activation-response variant class, palette responders and a tag that goes silent after command k; oracle: nothing raises, result is None or 0<=length<=capacity, bounded command count (budget enforced by the simulated device).",
+         "command bound 4*(read units)+256; responses of length zero are a separate class; CPU-only loops are caught by the per-run wall alarm"),
+ "C12": ("fault_enumeration", "8.C12", "deterministic simulation: real IsoDepInitiator vs ISO 14443-4 PICC model under enumerated per-block fault scripts",
+         "For each seeded (4A/4B, FSCI, FWI, frame limits, chaining shapes, S(WTX) plan, APDU) scenario every single-fault script (position x kind) and all/sampled double-fault scripts are executed; the card model counts executions and names each execution in its response, so duplicated, stale, truncated or foreign responses are detected; blocks are measured against FSC; recovery is required within the retry budget the implementation derives.",
+         "PICC model = ISO/IEC 14443-4 rules as in DESIGN Appendix A; faults on the S(WTX) exchange itself are only held to the outcome-type clause"),
+ "C16": ("fault_enumeration", "8.C16", "deterministic simulation: error bursts (kind x length 1..4) injected at every exchange index of every tag operation",
+         "Each seeded (tag class, layout, operation) scenario is dry-run to record its transcript, then re-run with one burst at every exchange index: outcome type (result / TagCommandError / documented None-False), errno for persisting errors on primitives, absorbed bursts must reproduce the fault-free result and command transcript.",
+         "retry budgets taken from the implementation (3 attempts T1/T2/T3, n_retry T4; ISO-DEP does not retry protocol errors); vendor classes (NTAG, FeliCa Lite) join when their models exist"),
 }
 NA = {
  "C11": "pure encode/decode function of its argument: no schedule, clock, fault, peer or history enters the statement; deterministic simulation adds nothing over input generation (DESIGN.md section 9)",
